@@ -154,8 +154,53 @@ func parseOpts4(s string) dhcpv4.Options {
 // ---- the worker
 
 type plugWorker struct {
-	h4 handler.Handler4
-	h6 handler.Handler6
+	h4   handler.Handler4
+	h6   handler.Handler6
+	name string
+	args []string
+}
+
+// typed4 decodes, with the library's own option parsers, the values this plugin is configured to
+// emit and compares them with the configuration ("" = fine)
+func (w *plugWorker) typed4(back *dhcpv4.DHCPv4) string {
+	switch w.name {
+	case "searchdomains":
+		ds := back.DomainSearch()
+		var got []string
+		if ds != nil {
+			got = ds.Labels
+		}
+		if strings.Join(got, "|") != strings.Join(w.args, "|") {
+			return "fail:decoded-search-list-differs"
+		}
+	case "staticroute":
+		rs := back.ClasslessStaticRoute()
+		if len(rs) != len(w.args) {
+			return "fail:decoded-routes-differ"
+		}
+		for i, a := range w.args {
+			f := strings.Split(a, ",")
+			_, n, err := net.ParseCIDR(f[0])
+			if err != nil || rs[i].Dest.String() != n.String() || !rs[i].Router.Equal(net.ParseIP(f[1])) {
+				return "fail:decoded-routes-differ"
+			}
+		}
+	}
+	return ""
+}
+
+func (w *plugWorker) typed6(back *dhcpv6.Message) string {
+	if w.name == "searchdomains" {
+		ds := back.Options.DomainSearchList()
+		var got []string
+		if ds != nil {
+			got = ds.Labels
+		}
+		if strings.Join(got, "|") != strings.Join(w.args, "|") {
+			return "fail:decoded-search-list-differs"
+		}
+	}
+	return ""
 }
 
 func (w *plugWorker) line(op string) string {
@@ -177,6 +222,7 @@ func (w *plugWorker) line(op string) string {
 			orc = strings.Join(or, " ")
 		}
 		p := builtin[name]
+		w.name, w.args = name, args
 		res := guard(func() string {
 			if f[1] == "4" {
 				if p.Setup4 == nil {
@@ -239,18 +285,14 @@ func (w *plugWorker) line(op string) string {
 					if err != nil {
 						return "fail:unparsable"
 					}
-					// a zero-length option is indistinguishable from an absent one after parsing
-					want := dhcpv4.Options{}
-					for c, v := range out.Options {
-						if len(v) > 0 {
-							want[c] = v
-						}
-					}
-					if opts4str(back.Options) != opts4str(optsBytes(want)) {
+					if opts4str(back.Options) != opts4str(out.Options) {
 						return "fail:options-differ"
 					}
 					if !bytes.Equal(back.ToBytes(), wire) {
 						return "fail:reserialisation-differs"
+					}
+					if t := w.typed4(back); t != "" {
+						return t
 					}
 					return "ok"
 				})
@@ -311,6 +353,9 @@ func (w *plugWorker) line(op string) string {
 					if !bytes.Equal(back.ToBytes(), wire) {
 						return "fail:reserialisation-differs"
 					}
+					if t := w.typed6(bm); t != "" {
+						return t
+					}
 					return "ok"
 				})
 				return fmt.Sprintf("%s ; %s ; %s ; rt %s", view, pre, outs, rt)
@@ -319,9 +364,6 @@ func (w *plugWorker) line(op string) string {
 	}
 	return "badop"
 }
-
-// opts4str works on dhcpv4.Options whose values are raw bytes
-func optsBytes(o dhcpv4.Options) dhcpv4.Options { return o }
 
 func mt4(d *dhcpv4.DHCPv4) int {
 	if v := d.Options.Get(dhcpv4.OptionDHCPMessageType); len(v) >= 1 {
